@@ -12,7 +12,7 @@ StdRoots == { <<>>, <<"b1">>, <<"b3", "b4">>, <<"b1", "b1">>, <<"b22">> }    \* 
 (* valid blocks only: verifying readers hash them *)
 IdsA == {"b1", "b2", "b3", "b4", "b5", "b6", "b10", "b20"}          \* collisions: same mh / same digest / v0 / identity
 IdsB == {"b1", "b8", "b9", "b12", "b13", "b14", "b19"}                   \* widths, empty data, varint boundaries, long CID
-IdsC == {"b24", "b23", "b5", "b1"}     \* b23/b24: identity CIDs with a long common digest prefix (indexed with StoreIdentityCIDs)
+IdsC == {"b24", "b23", "b25", "b1"}     \* b23/b24: identity CIDs with a long common digest prefix (indexed with StoreIdentityCIDs)
 IdsBig == {"b1", "b15", "b16"}
 IdsT == {"b1", "b3", "b5", "b9", "b10", "b12", "b14"}     \* b14: section body of exactly 128 bytes (prefix 0x80 0x01)
 TruncConts == { C(1, 0, 0, "none", FALSE, 0), C(2, 0, 0, "mh", FALSE, 0), C(2, 59, 0, "none", FALSE, 0) }
@@ -20,5 +20,5 @@ TruncRoots == { <<>>, <<"b1">>, <<"b3", "b4">> }
 IdsTBig == {"b21", "b1"}
 TruncContsBig == { C(1, 0, 0, "none", FALSE, 0), C(2, 0, 0, "mh", FALSE, 0) }
 TruncRootsBig == { <<"b1">> }
-ProbesStd == {"b1", "b2", "b3", "b4", "b5", "b6", "b7", "b8", "b9", "b10", "b12", "b17", "b19", "b20", "b23", "b24"}
+ProbesStd == {"b1", "b2", "b3", "b4", "b5", "b6", "b7", "b8", "b9", "b10", "b12", "b17", "b19", "b20", "b23", "b24", "b25"}
 =============================================================================
